@@ -4,4 +4,4 @@ TIE = "corr:pe"
 TIE_THEOREM = "Relic.Props.C03 (models Relic.Model.PE vs lib/authenticode)"
 UNPROVED = []
 IMPL_PARALLEL = 16
-install(globals(), "C03", ["pe", "e2e", "cab", "ps"])
+install(globals(), "C03", ["pe", "e2e", "cab", "ps", "jar"])
